@@ -432,6 +432,8 @@ type parkStore struct {
 	wireTid int
 	// every *Item handed to inner.Put, in order
 	puts []*bep44.Item
+	// fault injection (faultstore.go): the next calls fail with an ordinary Go error
+	failGet, failPut int
 }
 
 func newParkStore() *parkStore {
@@ -487,6 +489,10 @@ func safeBv(i *bep44.Item) []byte {
 
 func (p *parkStore) Put(i *bep44.Item) error {
 	req := p.enter("p")
+	if p.takeFault("p") {
+		p.record(req, storeCall{Kind: "p", Item: "fault"})
+		return errDiskFull
+	}
 	err := p.inner.Put(i)
 	p.mu.Lock()
 	p.muts++
@@ -498,6 +504,10 @@ func (p *parkStore) Put(i *bep44.Item) error {
 
 func (p *parkStore) Get(t bep44.Target) (*bep44.Item, error) {
 	req := p.enter("g")
+	if p.takeFault("g") {
+		p.record(req, storeCall{Kind: "g", Seen: "fault"})
+		return nil, errDiskFull
+	}
 	i, err := p.inner.Get(t)
 	c := storeCall{Kind: "g", Seen: "notfound"}
 	if err == nil && i != nil {
